@@ -18,6 +18,7 @@
   typedef struct { T *data; size_t size; size_t cap; } NAME;                     \
   static inline size_t NAME##__size(NAME *v) { return v->size; }                 \
   static inline void NAME##__clear(NAME *v) { v->size = 0; }                     \
+  static inline void NAME##__swap(NAME *v, NAME *w) { NAME t = *v; *v = *w; *w = t; } \
   static inline void NAME##__push_back(NAME *v, T *x)                            \
   { __CPROVER_assert(v->size < v->cap, "model limit: vector capacity");          \
     v->data[v->size] = *x; v->size = v->size + 1; }                              \
